@@ -211,6 +211,9 @@ def _kind(pv):
         return "None"
     if pv[0] == "arr":
         return "arr"
+    if pv[0] == "sym":
+        m, f = "Symbol('M_" in pv[1], "Symbol('F_" in pv[1]
+        return "sym-mixed" if (m and f) else ("sym-meas" if m else ("sym-free" if f else "sym-const"))
     return pv[0]
 
 
@@ -310,7 +313,8 @@ def diff_views(v1, v2, ir, tol=0.0, compare_n=False, fields=None):
             continue
         if v1[f] != v2[f]:
             kind = "dropped" if v2[f] is None else ("invented" if v1[f] is None else "changed")
-            out.append((pre + "%s-%s" % (f, kind), "%s %r -> %r" % (f, v1[f], v2[f])))
+            ctxt = ("tdm" if v1["tdm"] is not None else "plain") + ("" if f == "target" else ("+target" if v1["target"] is not None else "+no-target"))
+            out.append((pre + "%s-%s:%s" % (f, kind, ctxt), "%s %r -> %r" % (f, v1[f], v2[f])))
     if (v1["tdm"] is None) != (v2["tdm"] is None):
         out.append((pre + "tdm-presence", "tdm data %s -> %s" % (v1["tdm"] is not None, v2["tdm"] is not None)))
     elif v1["tdm"] is not None:
@@ -350,7 +354,7 @@ def diff_views(v1, v2, ir, tol=0.0, compare_n=False, fields=None):
                 kx, ky = _kind(x), _kind(y)
                 if kx == ky:
                     sig = "param-value-changed:" + kx
-                    if kx == "sym":
+                    if kx.startswith("sym"):
                         try:
                             neg = sympy.srepr(-sympy.sympify(x[1]))
                             sig += "-negated" if sym_equal(neg, y[1]) else "-other"
@@ -914,9 +918,17 @@ def check_roundtrip(spec, ir, level, with_state=True):
     if ir == "code":
         fields = ()  # generate_code(prog) without an engine does not claim to carry target / options
     diffs = diff_views(v0, v1, ir, tol=tol, compare_n=(ir == "bb" and level == "rec") or ir == "code", fields=fields)
+    if level == "text" and ir in ("bb", "xir") and diffs:
+        # differences that the object-level round trip does not show are caused by the text layer: marked @text
+        try:
+            l2, _ = roundtrip(build(spec), ir, "rec")
+            rec_sigs = {s_ for s_, _ in diff_views(v0, view(l2), ir, tol=tol, compare_n=False, fields=fields)}
+        except Stage:
+            rec_sigs = set()
+        diffs = [(s_ if s_ in rec_sigs else s_ + "@text", w) for s_, w in diffs]
     for sig, w in diffs:
         issues.append({"base": sig, "kind": "diff", "exc": False, "what": "after %s round trip (%s level): %s" % (ir, level, w)})
-    if with_state and runnable_gaussian(v0) and (not diffs or all(d[0].endswith("dagger-dropped") for d in diffs)):
+    if with_state and runnable_gaussian(v0) and (not diffs or all("dagger-dropped" in d[0] for d in diffs)):
         try:
             s0 = run_state(build(spec))
         except Exception:
